@@ -80,7 +80,7 @@ pub async fn run_c11(w: &mut World, m: &mut Mon, r: &mut R, t: &Twin, max_len: u
     };
     let n = C11_SYMS.len();
     let signers: Vec<&Keypair> = vec![&auth, &y_auth, &lk, &admin];
-    let mut run_shape = |w: &mut World, m: &mut Mon, shape: &Vec<usize>| -> (Vec<Instruction>, ()) {
+    let run_shape = |w: &mut World, m: &mut Mon, shape: &Vec<usize>| -> (Vec<Instruction>, ()) {
         let len = shape.len();
         let ixs: Vec<Instruction> = shape.iter().enumerate().map(|(p, s)| build(w, *s, p, len)).collect();
         (ixs, ())
